@@ -191,8 +191,8 @@ def pers_mut_rule(ctx):
             res.ok("%s.%s is written on an evaluation path and travels (%s)" % (clsname, name, ai.kind))
         else:
             res.fail(Finding("PERS-MUT", ai.cls.module, "%s.__init__" % ai.cls.name, ai.node, "'%s' is mutated by evaluation (%s) but is %s: the learnt/recorded value is lost on save+reload" % (name, why, "a non-persistent buffer" if ai.kind == BUFFER else "a plain attribute")))
-    if len(res.instances) < 5:
-        raise AnalysisIncomplete("PERS-MUT: %d mutated attributes found (< 5 confirmed by hand)" % len(res.instances))
+    if len(res.instances) < 3:
+        raise AnalysisIncomplete("PERS-MUT: %d mutated attributes found (< 3; the count on the pinned tree is larger, the floor leaves room for merged call sites confirmed by hand)" % len(res.instances))
     return res
 
 
@@ -287,6 +287,139 @@ def _constructs_module(p, cls, node, init):
     return False
 
 
+
+def pers_shape_rule(ctx):
+    """PERS-SHAPE: a parameter / persistent buffer keeps the rank it was registered with.  An update
+    that *rebinds* the attribute (`self.running_mean = torch.lerp(self.running_mean, mean, m)`) takes
+    the shape of whatever the right-hand side broadcasts to; if that has another rank (a keepdim
+    statistic, an unsqueezed operand) the state dict of a trained model no longer fits a freshly
+    constructed one (load_state_dict: size mismatch) -- in-place updates cannot do that.  Decided with
+    the axis-layout algebra on the right-hand side; a right-hand side it cannot follow is noted, not
+    reported."""
+    from ..axes import AxisEval, Mismatch, Unknown, show
+
+    p = ctx.p
+    res = RuleResult("PERS-SHAPE", "a rebinding update of a parameter / persistent buffer outside the constructor keeps the rank the attribute was registered with")
+    n = 0
+    for cls in p.all_classes():
+        if not cls.is_nn_module() or not cls.module.name.startswith("nflows."):
+            continue
+        attrs = p.attrs(cls)
+        stored = {}
+        for name, ai in attrs.items():
+            if ai.cls is not cls or ai.value is None:
+                continue
+            if ai.kind == "PARAM" or (ai.kind == "BUFFER" and ai.extra is True):
+                # rank of the registered value: torch.zeros(features) / torch.ones(a, b) / torch.tensor(scalar)
+                v = ai.value
+                while isinstance(v, ast.Call) and norm_text(v.func).split(".")[-1] in ("Parameter", "clone", "float", "double"):
+                    v = v.args[0] if v.args else (v.func.value if isinstance(v.func, ast.Attribute) else None)
+                    if v is None:
+                        break
+                rank = None
+                if isinstance(v, ast.BinOp):
+                    for side in (v.left, v.right):
+                        if isinstance(side, ast.Call) and norm_text(side.func) in ("torch.zeros", "torch.ones", "torch.empty", "torch.randn", "torch.rand"):
+                            v = side
+                if isinstance(v, ast.Call) and norm_text(v.func) in ("torch.zeros", "torch.ones", "torch.empty", "torch.randn", "torch.rand", "torch.full"):
+                    sizes = [a for a in v.args if not isinstance(a, ast.Starred)]
+                    if sizes and isinstance(sizes[0], (ast.Tuple, ast.List)):
+                        sizes = list(sizes[0].elts)
+                    if not any(isinstance(a, ast.Starred) for a in v.args):
+                        rank = len(sizes) if norm_text(v.func) != "torch.full" else None
+                elif isinstance(v, ast.Call) and norm_text(v.func) in ("torch.tensor", "torch.as_tensor") and v.args and isinstance(v.args[0], ast.Constant):
+                    rank = 0
+                if rank is not None:
+                    stored[name] = rank
+        if not stored:
+            continue
+        for mname, m in cls.methods.items():
+            if mname == "__init__":
+                continue
+            params = [a for a, _ in m.params()]
+            for st in ast.walk(m.node):
+                if not isinstance(st, ast.Assign):
+                    continue
+                for t in st.targets:
+                    if not (isinstance(t, ast.Attribute) and isinstance(t.value, ast.Name) and t.value.id == "self" and t.attr in stored):
+                        continue
+                    n += 1
+                    rank = stored[t.attr]
+                    env = {}
+                    if params:
+                        env[params[0]] = (((("B", "B", False),)), ((("D", "D", False),)))
+                    ev = AxisEval(env)
+
+                    # module state by its registered rank; locals through their (single) definitions
+                    defs = {}
+                    for a in ast.walk(m.node):
+                        if isinstance(a, ast.Assign) and a.lineno < st.lineno:
+                            for tt in a.targets:
+                                if isinstance(tt, ast.Name):
+                                    defs[tt.id] = a.value
+                                elif isinstance(tt, (ast.Tuple, ast.List)) and all(isinstance(x, ast.Name) for x in tt.elts):
+                                    for i, x in enumerate(tt.elts):
+                                        defs[x.id] = ("component", a.value, i, len(tt.elts))
+
+                    def layout_of(e, depth=0):
+                        if depth > 8:
+                            raise Unknown("depth")
+                        if isinstance(e, ast.Attribute) and isinstance(e.value, ast.Name) and e.value.id == "self" and e.attr in stored:
+                            return tuple(((("s%d" % i, "S%d" % i, False),)) for i in range(stored[e.attr]))
+                        if isinstance(e, ast.Name) and e.id in defs:
+                            d = defs[e.id]
+                            if isinstance(d, tuple) and d[0] == "component":
+                                src = d[1]
+                                if isinstance(src, ast.Tuple) and len(src.elts) == d[3]:
+                                    return layout_of(src.elts[d[2]], depth + 1)
+                                if isinstance(src, ast.Call) and norm_text(src.func) in ("torch.var_mean", "torch.std_mean"):
+                                    red = ast.Call(func=ast.Attribute(value=src.args[0], attr="mean", ctx=ast.Load()), args=list(src.args[1:]), keywords=list(src.keywords))
+                                    return layout_of(red, depth + 1)
+                                raise Unknown("component")
+                            return layout_of(d, depth + 1)
+                        if isinstance(e, ast.Call) and norm_text(e.func) in ("torch.lerp", "torch.add", "torch.sub", "torch.mul", "torch.where", "torch.addcmul"):
+                            outs = []
+                            for a in e.args:
+                                try:
+                                    outs.append(layout_of(a, depth + 1))
+                                except Unknown:
+                                    pass
+                            if not outs:
+                                raise Unknown("operands")
+                            return max(outs, key=len)
+                        if isinstance(e, ast.BinOp):
+                            outs = []
+                            for a in (e.left, e.right):
+                                try:
+                                    outs.append(layout_of(a, depth + 1))
+                                except Unknown:
+                                    pass
+                            if not outs:
+                                raise Unknown("operands")
+                            return max(outs, key=len)
+                        if isinstance(e, ast.Call) and isinstance(e.func, ast.Attribute) and e.func.attr in ("detach", "clone", "float", "double", "to", "contiguous") and not (isinstance(e.func.value, ast.Name) and e.func.value.id == "torch"):
+                            return layout_of(e.func.value, depth + 1)
+                        if isinstance(e, ast.Call) and isinstance(e.func, ast.Attribute) and e.func.attr in ("mean", "var", "std", "sum") and not (isinstance(e.func.value, ast.Name) and e.func.value.id == "torch"):
+                            base = layout_of(e.func.value, depth + 1)
+                            sub = AxisEval({"__x__": base})
+                            call2 = ast.Call(func=ast.Attribute(value=ast.Name(id="__x__", ctx=ast.Load()), attr=e.func.attr, ctx=ast.Load()), args=e.args, keywords=e.keywords)
+                            return sub.ev(call2)
+                        return ev.ev(e)
+
+                    try:
+                        lay = layout_of(st.value)
+                    except (Unknown, Mismatch) as u:
+                        res.ok("%s.%s rebinds `%s`; its right-hand side was not followed (%s)" % (cls.name, mname, t.attr, str(u)[:40]), nontrivial=False)
+                        continue
+                    if len(lay) != rank:
+                        res.fail(Finding("PERS-SHAPE", m.module, m.qualname, st, "`self.%s` is registered with %d ax%s but this update rebinds it to a value with %d (%s): after the first such update the state dict of this model has another shape than a freshly constructed one expects, and load_state_dict fails with a size mismatch (an in-place update keeps the registered shape)" % (t.attr, rank, "is" if rank == 1 else "es", len(lay), show(lay))))
+                    else:
+                        res.ok("%s.%s rebinds `%s` with a value of its registered rank %d" % (cls.name, mname, t.attr, rank))
+    if n == 0:
+        res.ok("no parameter / persistent buffer is rebound outside a constructor (updates are in place)", nontrivial=False)
+    return res
+
+
 def pers_stale_rule(ctx):
     """PERS-STALE = LD-STATE (shared with C01 / C02 / C03): a copy of stored state kept in a plain
     attribute or a non-persistent buffer (a constructor-time or eval-time derived value, a memo) is
@@ -303,7 +436,7 @@ def pers_stale_rule(ctx):
 
 register(
     "C15",
-    [pers_rng_rule, pers_mut_rule, pers_np_rule, pers_call_rule, pers_stale_rule],
+    [pers_rng_rule, pers_mut_rule, pers_np_rule, pers_call_rule, pers_stale_rule, pers_shape_rule],
     "Dataflow over constructors and evaluation paths. PERS-RNG: every nn.Module constructor is abstractly interpreted with a "
     "taint domain in which random sources (torch.rand*, randperm, randint, multinomial, init.uniform_/normal_..., np.random, and "
     "repository helpers that return them, found interprocedurally) label their results RNG; every store of an RNG-tainted value "
